@@ -120,10 +120,17 @@ func main() {
 	budget := flag.Duration("budget", 0, "wall-clock budget; a run that hits it reports exhaustive:false")
 	verbose := flag.Bool("v", false, "verbose")
 	part := flag.String("part", "", "run only one part of a property (debugging)")
+	coldrun := flag.String("coldrun", "", "child mode: one cold-start execution (property|scenario|schedule prefix)")
 	confload := flag.String("confload", "", "child mode: run config.Load on the file and print the effective configuration as JSON (exit status 1 = refused)")
 	flag.Parse()
 	if *confload != "" {
 		confLoadChild(*confload)
+		return
+	}
+	if *coldrun != "" {
+		runtime.GOMAXPROCS(1)
+		log.SetOutput(io.Discard)
+		coldChild(*coldrun)
 		return
 	}
 	runtime.GOMAXPROCS(1)
